@@ -11,6 +11,7 @@ in the model objects are values (`applyOp_frame`, `sortBy_frame`, `keep_frame`).
 (lean/Rsa/Drv/C11.lean over lean/Rsa/Core/Dataset.lean); oracle: engines/C11_oracle.py.
 """
 import itertools
+import random
 from fractions import Fraction
 from lean import close
 from engines import C11_real as R
@@ -27,7 +28,7 @@ THEOREMS = [P + n for n in (
     'average_by_is_group_mean', 'reachable_inv', 'split_channel_partitions', 'split_time_partitions',
     'tensor_entry', 'constructor_check_sound', 'merge_split_columns',
     'df_classification', 'df_default_class', 'reachable_inv_bin',
-    'applyOp_frame', 'sortBy_frame', 'keep_frame')]
+    'applyOp_frame', 'sortBy_frame', 'keep_frame', 'timeAsChan_index_order')]
 RULE = ('one case = initial Dataset/TemporalDataset (1-6 observations, sometimes 17-24 for sort '
         'stability; 1-4 channels; 1-4 time points; str/int descriptor columns with duplicate values, '
         'list- or array-typed; optionally a column with missing entries (None in a string column, NaN '
@@ -41,7 +42,13 @@ RULE = ('one case = initial Dataset/TemporalDataset (1-6 observations, sometimes
         'splits with a single group, merges of parts with different channel counts; sharing '
         'histories: siblings derived by every split / subset kind, bin_time, a constructor-built twin, '
         'the source kept in the workspace or not, then an in-place sort_by of ONE object by an unsorted '
-        'key, then reads of the others and of results derived from them) are mixed '
+        'key, then reads of the others and of results derived from them; round 5: EVERY initial dataset '
+        'has a memory layout of its measurement array -- C, Fortran, strided view into a larger buffer, '
+        'negative strides, non-contiguous transposes and combinations -- and a dtype float64 / float32 / '
+        'int64 / int32, the arrays the library returns are never normalised between operations on either '
+        'the real side or the oracle side, and a template runs subset_time / split_time on singleton '
+        'shapes n_obs == 1 / n_channel == 1 / n_time == 1 (where numpy a[:, :, idx] leaves a '
+        'Fortran-contiguous buffer) before time_as_channels / time_as_observations) are mixed '
         'with random sequences; a case is non-trivial when at least one operation was admissible '
         'and changed or queried the workspace; distinct = distinct (initial dataset, operation list)')
 BRANCHES = ['op:split_obs', 'op:split_channel', 'op:split_time', 'op:subset_obs', 'op:subset_channel',
@@ -64,9 +71,19 @@ BRANCHES = ['op:split_obs', 'op:split_channel', 'op:split_time', 'op:subset_obs'
             'share:subset_channel+sort', 'share:split_time+sort', 'share:subset_time+sort',
             'share:bin_time+sort', 'share:ctor+sort', 'share:read-after-sort', 'share:then-subset_obs',
             'share:then-time_as_observations', 'share:then-merge', 'share:then-average_by',
-            'frame:reread-after-query', 'frame:reread-after-refusal']
+            'frame:reread-after-query', 'frame:reread-after-refusal',
+            # round 5: memory layout / dtype of the measurement array an operation is applied to
+            'layout:F', 'layout:strided', 'layout:neg', 'layout:perm', 'dtype:float32', 'dtype:int',
+            'layout:F+time_as_channels', 'layout:F+time_as_observations',
+            'layout:strided+time_as_channels', 'layout:neg+time_as_channels', 'layout:perm+time_as_channels',
+            'layout:F-from-subset_time', 'layout:F-from-subset_time+time_as_channels',
+            'layout:F-from-subset_time+time_as_observations', 'layout:perm-from-subset_time',
+            'layout:from-subset_time+other-op']
 ASSUMPTIONS = [
-    'measurements are small integers, so numpy means agree with exact rational means to 1e-9',
+    'measurements are small integers, so numpy means agree with exact rational means to 1e-9 (1e-6 in a '
+    'session whose initial array is float32: numpy averages float32 data in float32); integer-typed '
+    'measurement arrays are left out of sessions with a dtype-driven DataFrame round trip (from_df finds '
+    'the channels by their float dtype)',
     'descriptor columns are homogeneous (all int, all float, or all str) apart from missing entries, '
     'and key names of the four descriptor dictionaries are pairwise distinct in the initial dataset '
     '(the operations themselves may duplicate a key consistently); a missing entry is None in a '
@@ -495,39 +512,119 @@ def _exhaustive(rng):
                 yield {'init': init, 'ops': [dict(o) for o in seq]}
 
 
-def _norm(case):
-    """(round 3: nothing to normalise any more — the model tracks float-typed descriptors, so a
-    `df_default` after `bin_time` is decided by `dfDefaultRepresentable` on both sides)"""
-    return case
+LAYOUTS = ['C', 'F', 'strided', 'neg', 'perm', 'F+strided', 'perm+neg', 'F+neg', 'strided+neg']
+PERMS = [[2, 0, 1], [1, 0, 2], [0, 2, 1], [1, 2, 0]]       # non-contiguous transposes ([2,0,1]: what a[:, :, idx] leaves)
+
+
+def gen_layout(rng, kind=None):
+    """memory layout of the measurement array the dataset is built from (see C11_real.lay_out):
+    C order, Fortran order (np.asfortranarray, loadmat), a strided view into a larger buffer, reversed
+    views (negative strides), non-contiguous transposes, and combinations"""
+    kind = kind or rng.choice(LAYOUTS)
+    lay = {'kind': kind}
+    parts = kind.split('+')
+    if 'F' in parts:
+        lay['perm'] = [2, 1, 0]
+    if 'perm' in parts:
+        lay['perm'] = list(rng.choice(PERMS))
+    if 'strided' in parts:
+        steps = [[rng.choice([1, 2, 3]), rng.choice([0, 1])] for _ in range(3)]
+        if all(st == 1 for st, _ in steps):
+            steps[rng.randrange(3)][0] = 2
+        lay['steps'] = steps
+    if 'neg' in parts:
+        flips = [rng.randrange(2) for _ in range(3)]
+        if not any(flips):
+            flips[rng.randrange(3)] = 1
+        lay['flips'] = flips
+    return lay
+
+
+def add_layout(rng, case, p_c=0.35):
+    """round 5: every dataset the session engine builds gets a memory layout and a dtype.  Integer
+    measurements are left out of sessions with a dtype-driven DataFrame round trip (`from_df` finds
+    the channels by their float dtype: an integer array is outside its documented class)."""
+    init = dict(case['init'])
+    if 'layout' not in init:
+        kind = 'C' if rng.random() < p_c else rng.choice(LAYOUTS[1:])
+        if kind != 'C':
+            init['layout'] = gen_layout(rng, kind)
+    if 'dtype' not in init:
+        r = rng.random()
+        dt = 'float64' if r < 0.6 else 'float32' if r < 0.8 else rng.choice(['int64', 'int32'])
+        if dt.startswith('int') and any(o['name'] == 'df_default' for o in case['ops']):
+            dt = 'float32' if rng.random() < 0.5 else 'float64'
+        if dt != 'float64':
+            init['dtype'] = dt
+    return dict(case, init=init)
+
+
+def _layout_conversions(rng):
+    """round 5 template: the layouts that ARISE from operations.  numpy's `a[:, :, idx]` (subset_time,
+    split_time) leaves a transposed buffer (memory order time, obs, channel) that is Fortran-contiguous
+    exactly when n_obs == 1 or n_channel == 1; then the conversions reshape it.  Singleton shapes incl.
+    n_time == 1, the source kept or not, both conversions, and the same with user-supplied layouts."""
+    shape = rng.choice([(1, 2, 3), (1, 3, 4), (1, 4, 3), (1, 2, 4), (2, 1, 3), (3, 1, 4), (4, 1, 3), (1, 1, 3),
+                        (2, 3, 1), (1, 3, 1), (3, 1, 1), (2, 2, 3), (3, 2, 4), (1, 3, 3), (3, 1, 3)])
+    init = gen_init(rng, True, *shape, special=False)
+    nt = shape[2]
+    init['time'] = [['time', sorted(rng.sample(range(0, 12), nt))], ['ph', [t % 2 for t in range(nt)]]]
+    init['kinds']['time:time'] = 'array' if rng.random() < 0.75 else 'list'
+    init['kinds']['time:ph'] = rng.choice(['list', 'array'])
+    r = rng.random()
+    if r < 0.45:        # a window of >= 2 time points when there are that many (k = 1: 'time')
+        lo = rng.randrange(max(1, nt - 1))
+        hi = rng.randrange(lo + 1, nt) if nt > 1 else 0
+        derive = [{'name': 'subset_time', 'at': 0, 'k': 1, 'lo': lo, 'hi': hi, 'keep': rng.random() < 0.3}]
+    elif r < 0.8:       # two time groups (k = 0: 'ph'), convert one of the parts
+        derive = [{'name': 'split_time', 'at': 0, 'k': 0, 'keep': rng.random() < 0.3}]
+    elif r < 0.9:       # twice: a window of a part
+        derive = [{'name': 'split_time', 'at': 0, 'k': 0}, gen_op(rng, 'subset_time')]
+    else:               # no derivation: the user-supplied layout itself
+        derive = []
+        init['layout'] = gen_layout(rng, rng.choice(['F', 'F', 'perm', 'F+strided', 'F+neg']))
+    conv = rng.choice(['time_as_channels', 'time_as_channels', 'time_as_observations'])
+    ops = derive + [dict(gen_op(rng, conv), at=rng.randrange(3))]
+    if rng.random() < 0.5:
+        ops.append(gen_op(rng, rng.choice(['time_as_channels', 'time_as_observations', 'sort_by', 'subset_channel',
+                                           'split_obs', 'df', 'average_by'])))
+    return init, ops
 
 
 def generate(rng, tier):
+    lrng = random.Random(rng.getrandbits(64))       # layouts / dtypes: every case gets one (round 5)
     if tier == 'quick':
         n_dir, n_rand, maxlen = 900, 600, 8
     else:
         n_dir, n_rand, maxlen = 5000, 10000, 30
-        yield from _exhaustive(rng)
+        for case in _exhaustive(rng):
+            yield add_layout(lrng, case, p_c=0.5)
     for _ in range(n_dir // 8):
         init = _special_init(rng)
         ops = [gen_op(rng, temporal=init['temporal']) for _ in range(rng.randint(1, 4))]
-        yield _norm({'init': init, 'ops': ops})
+        yield add_layout(lrng, {'init': init, 'ops': ops})
     for _ in range(n_dir):
         init, ops = _directed(rng)
-        yield _norm({'init': init, 'ops': ops})
+        yield add_layout(lrng, {'init': init, 'ops': ops})
+    # round 5: layouts that arise from subset_time / split_time on singleton shapes, then conversions
+    for _ in range(250 if tier == 'quick' else 2500):
+        init, ops = _layout_conversions(rng)
+        yield add_layout(lrng, {'init': init, 'ops': ops}, p_c=0.6)
     # round 4: shared state between a dataset and what was derived from it (every kind in turn)
     for n in range(300 if tier == 'quick' else 3000):
         init, ops = _sharing(rng, SHARE_KINDS[n % len(SHARE_KINDS)])
-        yield _norm({'init': init, 'ops': ops})
+        yield add_layout(lrng, {'init': init, 'ops': ops})
     for _ in range(n_rand):
         init, ops = _random_case(rng, maxlen)
-        yield _norm({'init': init, 'ops': ops})
+        yield add_layout(lrng, {'init': init, 'ops': ops})
 
 
 def search(rng, tier):
     while True:
         r = rng.random()
-        init, ops = _directed(rng) if r < 0.4 else _sharing(rng) if r < 0.65 else _random_case(rng, 8)
-        yield _norm({'init': init, 'ops': ops})
+        init, ops = _directed(rng) if r < 0.35 else _sharing(rng) if r < 0.55 else \
+            _layout_conversions(rng) if r < 0.75 else _random_case(rng, 8)
+        yield add_layout(rng, {'init': init, 'ops': ops})
 
 
 # ------------------------------------------------------------------ the two sides
@@ -537,7 +634,7 @@ def run_impl(case):
 
 
 def model_requests(case):
-    init = {k: v for k, v in case['init'].items() if k != 'kinds'}
+    init = {k: v for k, v in case['init'].items() if k not in ('kinds', 'layout', 'dtype')}
     return [{'op': 'c11.session', 'init': init, 'ops': case['ops']}]
 
 
@@ -597,13 +694,13 @@ def model_result(case, answers):
     return {'init': a['init'] if isinstance(a['init'], str) else _un_ds(a['init']), 'steps': steps}
 
 
-def _diff(a, b, path=''):
+def _diff(a, b, path='', rtol=1e-9):
     """first difference of two canonical values (numbers with tolerance), or None"""
     if isinstance(a, dict) and isinstance(b, dict):
         if sorted(a) != sorted(b):
             return f'{path}: keys {sorted(a)} != {sorted(b)}'
         for k in sorted(a):
-            d = _diff(a[k], b[k], f'{path}.{k}')
+            d = _diff(a[k], b[k], f'{path}.{k}', rtol)
             if d:
                 return d
         return None
@@ -611,7 +708,7 @@ def _diff(a, b, path=''):
         if len(a) != len(b):
             return f'{path}: length {len(a)} != {len(b)}'
         for k, (x, y) in enumerate(zip(a, b)):
-            d = _diff(x, y, f'{path}[{k}]')
+            d = _diff(x, y, f'{path}[{k}]', rtol)
             if d:
                 return d
         return None
@@ -624,7 +721,7 @@ def _diff(a, b, path=''):
         if not any(seg in path for seg in ('.meas', '.avg', '.tensor')) and \
                 isinstance(a, float) != isinstance(b, float):
             return f'{path}: {a!r} != {b!r} (integer- vs float-typed)'
-        return None if close(float(a), float(b)) else f'{path}: {a!r} != {b!r}'
+        return None if close(float(a), float(b), rtol=rtol) else f'{path}: {a!r} != {b!r}'
     return None if a == b else f'{path}: {a!r} != {b!r}'
 
 
@@ -637,6 +734,9 @@ def compare(case, impl, model):
                     f" ({impl.get('exc')}), model {model['init'] if isinstance(model['init'], str) else 'accepts'}")
         o = O.run(case)
         return f"model = implementation, but the oracle says: {o['what']}" if o else None
+    # numpy averages float32 measurements in float32 (eps = 6e-8): such sessions are compared with
+    # float32 accuracy (labels stay exact; measurements that are merely moved are exact anyway)
+    rtol = 1e-6 if case['init'].get('dtype') == 'float32' else 1e-9
     d = _diff(impl['init'], model['init'], 'init')
     if d:
         return f'initial dataset: {d}  [impl != model]'
@@ -656,7 +756,7 @@ def compare(case, impl, model):
                 return f'step {n} ({name}): impl {oi if isinstance(oi, str) else "result"} vs model ' \
                        f'{om if isinstance(om, str) else "result"}'
         else:
-            d = _diff(oi, om, 'out')
+            d = _diff(oi, om, 'out', rtol)
             if d:
                 return f'step {n} ({name}): {d}  [impl != model]'
         # every object of the workspace, re-read after a refused call / a query (after a state
@@ -664,7 +764,7 @@ def compare(case, impl, model):
         if ('ws' in si) != ('ws' in sm):
             return f'step {n} ({name}): workspace reported by one side only'
         if 'ws' in si:
-            d = _diff(si['ws'], sm['ws'], 'ws')
+            d = _diff(si['ws'], sm['ws'], 'ws', rtol)
             if d:
                 return f'step {n} ({name}): workspace after the call: {d}  [impl != model]'
     # model and implementation agree: cross-check both against the independent oracle, so that a
@@ -738,6 +838,7 @@ def features(case, impl):
                 cur = out['state']
             _round3_branches(br, op, s, before)
             _round4_branches(br, op, s, before, share)
+            _round5_branches(br, op, s)
             if out == 'inadmissible':
                 br.add('out:inadmissible')
                 continue
@@ -787,6 +888,32 @@ def features(case, impl):
                     br.add('sort:temporal-large')
     f['branches'] = sorted(br)
     return f
+
+
+def _round5_branches(br, op, step):
+    """coverage tags of the round-5 input class (memory layout / dtype of the measurement array the
+    operation is APPLIED to, read off the real object just before the call): the operation must have
+    been admissible and have produced a state / a query result"""
+    out = step['out']
+    if not (isinstance(out, dict) and ('state' in out or 'query' in out)):
+        return
+    name = op['name']
+    for lay in step.get('lay', []):
+        cls, origin = lay['cls'], lay['origin']
+        if cls in ('F', 'strided', 'neg', 'perm'):
+            br.add('layout:' + cls)
+        if lay['dtype'] in ('float32', 'int'):
+            br.add('dtype:' + lay['dtype'])
+        if name in ('time_as_channels', 'time_as_observations'):
+            if cls in ('F', 'strided', 'neg', 'perm'):
+                br.add(f'layout:{cls}+{name}')
+            if origin in ('subset_time', 'split_time') and cls in ('F', 'perm'):
+                # the transposed buffer `a[:, :, idx]` leaves behind: Fortran-contiguous when n_obs == 1
+                # or n_channel == 1, a non-contiguous transpose otherwise
+                br.add(f'layout:{cls}-from-subset_time')
+                br.add(f'layout:{cls}-from-subset_time+{name}')
+        elif origin in ('subset_time', 'split_time') and cls in ('F', 'perm'):
+            br.add('layout:from-subset_time+other-op')
 
 
 SHARE_DERIVE = ('split_channel', 'subset_channel', 'split_time', 'subset_time', 'bin_time', 'ctor')
